@@ -21,7 +21,7 @@ class Contract:
                  modifies=(), returns=None, yields=None, loops=(), ghost=None, inline=False, trusted=False,
                  canaries=(), note='', variants=None, lemmas=(), cls_fields=None, eager_generator=True,
                  name=None, prop=None, allow_exc=(), ensures_exc=None, timeout=None, assume=(),
-                 ghost_post=None, exit_lemmas=(), domains=None, crosscheck=True, inline_at_calls=False, native_gen=None, exit_hints=(), ghost_init=None):
+                 ghost_post=None, exit_lemmas=(), domains=None, crosscheck=True, inline_at_calls=False, native_gen=None, exit_hints=(), ghost_init=None, globals_=None):
         self.file = file
         self.func = func
         self.params = params or {}
@@ -49,6 +49,7 @@ class Contract:
         self.crosscheck = crosscheck
         self.inline_at_calls = inline_at_calls   # verified against its contract, but call sites execute the real body
         self.native_gen = native_gen
+        self.globals_ = dict(globals_ or {})     # module-level names replaced by abstract values (AbsMap)
         self.ghost_init = dict(ghost_init or {})   # ghost locals: name -> initial value expression
         self.exit_hints = list(exit_hints)   # terms (local-state expressions) offered to e-matching at exit; no logical content
         self.lemmas = list(lemmas)     # extra axioms (strings) assumed at entry: recorded as assumptions
@@ -62,6 +63,7 @@ class Registry:
     def __init__(self):
         self.contracts = {}      # (file, func) -> Contract used at call sites
         self.verify = []         # contracts to verify (may contain several variants per function)
+        self.lemmas = []
         self.spec_modules = []   # python modules whose functions are spec functions
         self.spec_funcs = {}
         self.alternatives = {}   # (file, func) -> contracts chosen at a call site when their `applies` says so
@@ -70,8 +72,14 @@ class Registry:
         if callable_:
             self.contracts[c.key] = c
         if verify and not c.trusted and not c.inline:
+            if any(x.name == c.name for x in self.verify):
+                raise ValueError('duplicate contract name %s' % c.name)
             self.verify.append(c)
         return c
+
+    def add_lemma(self, lem):
+        self.lemmas.append(lem)
+        return lem
 
     def add_alternative(self, c, applies):
         c.applies = applies
@@ -92,3 +100,21 @@ class Induction:
 
     def __init__(self, var, lo, hi, claim, name='lemma'):
         self.var, self.lo, self.hi, self.claim, self.name = var, lo, hi, claim, name
+
+
+class Lemma:
+    """A closed statement over spec functions: forall vars satisfying `requires`, `ensures` hold.
+    Used to derive the property-level consequences (round trip, transitivity) from the function contracts."""
+
+    def __init__(self, name, params, requires=(), ensures=(), note=''):
+        self.name, self.params, self.requires, self.ensures, self.note = name, params, list(requires), list(ensures), note
+        self.file, self.func = '<lemma>', name
+        self.timeout = None
+
+
+class AbsMap:
+    """An abstract finite map (module-level dict the model does not expand): uninterpreted domain predicate and
+    value function over integer keys."""
+
+    def __init__(self, name, val_kind):
+        self.name, self.val_kind = name, val_kind
